@@ -546,10 +546,47 @@ func c19Effects(w *W) {
 		s1, s2 := w.Sock(k1), w.Sock(k2)
 		defer s1.Close()
 		defer s2.Close()
-		err := mangos.Device(s1, s2)
+		// the argument forms Device documents: two sockets, one socket given
+		// once (the other nil: a single-socket device), none at all; and
+		// sockets that are already closed
+		a1, a2 := s1, s2
+		form := w.Choose(simrt.SShape, 8)
+		switch form {
+		case 1:
+			a2, s2, k2 = nil, s1, k1
+			w.SetShape("form", "second-nil")
+		case 2:
+			a1, s1, k1 = nil, s2, k2
+			w.SetShape("form", "first-nil")
+		case 3:
+			w.SetShape("form", "both-nil")
+			err := mangos.Device(nil, nil)
+			if err == nil {
+				w.Failf("C19/device-without-sockets", "Device(nil, nil) returned nil")
+			}
+			w.Probe("device-both-nil-refused")
+			w.Delivery++
+			return
+		case 4:
+			w.SetShape("form", "first-closed")
+			s1.Close()
+		}
+		err := mangos.Device(a1, a2)
 		i1, i2 := s1.Info(), s2.Info()
 		match := i1.Self == i2.Peer && i2.Self == i1.Peer
 		raw := isRaw(k1) && isRaw(k2)
+		if form == 1 || form == 2 {
+			w.Probe("device-single-socket")
+		}
+		if form == 4 {
+			// a closed socket: refused or accepted (its forwarders end at once), never a panic
+			if !match && err != mangos.ErrBadProto {
+				w.Failf("C19/device-mismatch", "Device(%s [closed],%s): protocols do not pair up, returned %v", k1, k2, errName(err))
+			}
+			w.Probe("device-on-closed-socket")
+			w.Delivery++
+			return
+		}
 		switch {
 		case !match && err != mangos.ErrBadProto:
 			w.Failf("C19/device-mismatch", "Device(%s,%s): protocols do not pair up, returned %v", k1, k2, errName(err))
@@ -565,12 +602,15 @@ func c19Effects(w *W) {
 			}
 			w.Probe("device-refused")
 			// ... and nobody else consumes what arrives on either socket
-			for _, x := range []struct {
+			for xi, x := range []struct {
 				s    mangos.Socket
 				kind string
 			}{{s1, k1}, {s2, k2}} {
 				if !canRecv(x.kind) || !plainInbound(x.kind) {
 					continue
+				}
+				if xi == 1 && s2 == s1 {
+					continue // (single-socket form: the one socket was looked at already)
 				}
 				_ = x.s.SetOption(mangos.OptionRecvDeadline, 2*time.Millisecond)
 				addr := w.Addr("msg")
@@ -606,6 +646,21 @@ func c19Effects(w *W) {
 			}
 		} else {
 			w.Probe("device-accepted")
+			if s1 != s2 && canRecv(k1) && canSend(k2) && plainInbound(k1) && w.Choose(simrt.SProg, 2) == 0 {
+				// half of the device goes away: the far socket is closed, then a
+				// message arrives on the near one. The forwarder gives up; the
+				// near socket still closes cleanly (census at the end of the run)
+				addr := w.Addr("msg")
+				if s1.Listen(addr) == nil {
+					if p := mn.Connect(addr); p != nil {
+						w.Settle()
+						s2.Close()
+						p.Inject(inbound(k1, 9, "after the far side closed"))
+						w.Settle()
+						w.Probe("device-far-side-closed")
+					}
+				}
+			}
 		}
 		w.Delivery++
 	}
